@@ -55,6 +55,9 @@ type Result struct {
 	NonTrivial bool           `json:"nontrivial"`
 	Quiesced   bool           `json:"quiesced"`
 	StateHash  string         `json:"state_hash"`
+	SemHash    string         `json:"sem_hash"`
+	PGClasses  []string       `json:"pg_classes,omitempty"`
+	HTTPSizes  []int          `json:"http_sizes,omitempty"`
 	PlanDigest string         `json:"plan_digest"`
 }
 
@@ -123,8 +126,9 @@ type httpResult struct {
 }
 
 type pgDecision struct {
-	v    fakepg.Verdict
-	code string
+	v     fakepg.Verdict
+	code  string
+	crash int // 1: process dies before the group executes, 2: right after
 }
 
 type stopSignal struct{}
@@ -161,6 +165,12 @@ type World struct {
 	actorsLive int
 
 	stMu        sync.Mutex
+	pgSeen      int
+	httpSeen    int
+	pgClasses   []string
+	httpSizes   []int
+	okOutcomes  int
+	pendingJump time.Duration
 	outcomeQ    []outcomeRec
 	onHookEvent func(name string, kv ...any)
 	projCache   map[string][]string
@@ -517,7 +527,13 @@ func (w *World) actor(p *pairState, gen int, task *shovel.Task) {
 		w.mu.Unlock()
 	}()
 	for {
-		v, _ := w.sched.Park(nil, "step", "step "+p.key, actorRef{p, gen})
+		// the number of calls made so far is part of the key: with the
+		// all-zero decision vector (first pending event in canonical order)
+		// the actor that has run least goes first, so the benign schedule is fair
+		w.mu.Lock()
+		calls := p.calls
+		w.mu.Unlock()
+		v, _ := w.sched.Park(nil, "step", fmt.Sprintf("step %06d %s", calls, p.key), actorRef{p, gen})
 		if _, stop := v.(stopSignal); stop {
 			return
 		}
@@ -645,6 +661,11 @@ func Run(t *testing.T, plan *Plan, st *core.Stream, extra Extra, keepLog bool) (
 	res.Commits = len(w.commits)
 	res.Converges = w.converges
 	res.StateHash = w.stateHash()
+	res.SemHash = w.semHash()
+	if plan.Checks["report_seams"] {
+		res.PGClasses = w.pgClasses
+		res.HTTPSizes = w.httpSizes
+	}
 	res.NonTrivial = w.stats["commit_data"] > 0 && (w.stats["fault_total"] > 0 || w.stats["chain_events"] > 0 || len(w.pairs) > 1)
 	return res
 }
@@ -724,6 +745,46 @@ func (w *World) stateHash() string {
 		var rows []string
 		for _, r := range ts.Rows {
 			rows = append(rows, fakepg.FormatRow(ts.Cols, r, skip))
+		}
+		sort.Strings(rows)
+		sb.WriteString(k + "\n" + strings.Join(rows, "\n") + "\n")
+	}
+	return fmt.Sprintf("%x", node.Keccak([]byte(sb.String()))[:8])
+}
+
+// semHash hashes what the retry oracle compares: every data row and the set
+// of (src, ig, num, hash) positions; bookkeeping columns are left out.
+func (w *World) semHash() string {
+	if w.srv == nil {
+		return ""
+	}
+	snap := w.srv.DB.Snapshot()
+	var names []string
+	for k := range snap.Tables {
+		names = append(names, k)
+	}
+	sort.Strings(names)
+	var sb strings.Builder
+	keep := map[string]bool{"src_name": true, "ig_name": true, "num": true, "hash": true}
+	for _, k := range names {
+		ts := snap.Tables[k]
+		if strings.HasPrefix(k, "shovel.") && k != cursorTable {
+			continue
+		}
+		var rows []string
+		for _, r := range ts.Rows {
+			if k == cursorTable {
+				var parts []string
+				for i, c := range ts.Cols {
+					if keep[c.Name] && i < len(r.Vals) {
+						parts = append(parts, c.Name+"="+fakepg.FormatValue(r.Vals[i]))
+					}
+				}
+				sort.Strings(parts)
+				rows = append(rows, strings.Join(parts, " "))
+			} else {
+				rows = append(rows, fakepg.FormatRow(ts.Cols, r, nil))
+			}
 		}
 		sort.Strings(rows)
 		sb.WriteString(k + "\n" + strings.Join(rows, "\n") + "\n")
